@@ -231,7 +231,7 @@ func (e *Env) eval(x *Expr) SVal {
 		}
 		var decl []string
 		for _, b := range x.Vars {
-			sortName := b.Sort
+			sortName := sortAlias(b.Sort)
 			var T types.Type
 			if tt := e.lookupType(b.Sort); tt != nil {
 				T = tt
